@@ -64,3 +64,22 @@ package pclog
 //@   ensures queue-closed: closed(l.logEventChan)
 //@   ensures drained-then-flushed: joins() == old(joins()) + 1 && flushes() == old(flushes()) + 1 && flushAtJoins() == joins()
 //@   ensures flushed-then-closed: fileCloses() == old(fileCloses()) + 1 && closeAtFlushes() == flushes()
+
+//@ func (b *ProcessLogBuffer) Close
+//@   requires !held(b.mx)
+//@   ensures !held(b.mx) && b.observers != nil && fresh(b.observers) && len(b.observers) == 0
+//@   ensures atomic: acquires(b.mx) == old(acquires(b.mx)) + 1
+//@   assigns b.observers
+//@ func (b *ProcessLogBuffer) Subscribe
+//@   requires !held(b.mx) && b.observers != nil
+//@   ensures registered: obsId(observer) in b.observers && b.observers[obsId(observer)] == observer
+//@   ensures atomic: acquires(b.mx) == old(acquires(b.mx)) + 1
+//@   ensures !held(b.mx)
+//@   assigns entries(b.observers)
+//@ func (b *ProcessLogBuffer) UnSubscribe
+//@   requires !held(b.mx)
+//@   ensures removed: !(obsId(observer) in b.observers)
+//@   ensures others: forall k string :: k != obsId(observer) ==> (k in b.observers <==> old(k in b.observers)) && b.observers[k] == old(b.observers[k])
+//@   ensures atomic: acquires(b.mx) == old(acquires(b.mx)) + 1
+//@   ensures !held(b.mx)
+//@   assigns entries(b.observers)
